@@ -139,6 +139,10 @@ class _FP:
         for k, v in vars(part).items():
             if k == "_points":
                 continue
+            if k == "parent":
+                out["%s/attr/parent" % pfx] = None if v is None else [type(v).__name__, self.ident(v), getattr(v, "group_name", None),
+                                                                        len(getattr(v, "children", []))]
+                continue
             out["%s/attr/%s" % (pfx, k)] = self.canon(v)
         pts = list(part._points)
         out[pfx + "/npoints"] = len(pts)
@@ -153,7 +157,7 @@ class _FP:
                     continue
                 if k in ("starting_objects", "ending_objects"):
                     rec[k] = [[cls.__name__, [self.num[id(o)] for o in objs]] for cls, objs in v.items() if len(objs) > 0]
-                    rec[k + "_type"] = [type(v).__name__, sorted({type(objs).__name__ for objs in v.values()})]
+                    rec[k + "_type"] = [type(v).__name__, sorted({type(objs).__name__ for objs in v.values() if len(objs) > 0})]
                 else:
                     rec[k] = self.canon(v)
             for k in sorted(rec):
@@ -689,11 +693,14 @@ def ep_rest_array(args, prm):
     import partitura.score as S
     from partitura.utils.music import rest_array_from_part_list
 
+    import inspect
+
     x = args[0]
     kw = dict(prm.get("rflags", {}))
     if isinstance(x, S.Part):
         return x.rest_array(**kw)
-    return rest_array_from_part_list(_parts_of(x), **kw)
+    ok = set(inspect.signature(rest_array_from_part_list).parameters)
+    return rest_array_from_part_list(_parts_of(x), **{k: v for k, v in kw.items() if k in ok})
 
 
 def ep_ensure_notearray(args, prm):
